@@ -79,6 +79,7 @@ def run_job(job):
         Z = [int(z) for z in mol.species[m, :n]]
         uhf = mol.dm.dim() == 4
         a = int(act[m]) if torch.is_tensor(act) else int(act)
+        a_state = a
         eexc = fx(mol.cis_energies[m, a - 1]) if a > 0 else 0
         norb = int(mol.norb[m])
         if uhf:
@@ -127,12 +128,16 @@ def run_job(job):
                     dd = (2.0 * qn + 1.0) * (4.0 * s_ * p_) ** (qn + 0.5) / (s_ + p_) ** (2.0 * qn + 2.0) / 3.0 ** 0.5 * 0.529167
                     for d_ in range(3):
                         dh[d_] += -2.0 * dd * float(Pm[4 * a, 4 * a + 1 + d_]) * DU
+        allf = 0
+        if getattr(mol, "all_forces", None) is not None and torch.is_tensor(mol.all_forces):
+            # forces of every state were requested: the entry of the active state must be the published force
+            allf = fx(float((mol.all_forces[m, a_state, :n] - mol.force[m, :n]).abs().max()))
         recs.append({
             "id": f"{job['id']}/{m}", "path": job["path"], "fresh": fresh,
             "Etot": fx(mol.Etot[m]), "Eelec": fx(mol.Eelec[m]), "Enuc": fx(mol.Enuc[m]), "Eexc": eexc, "Hf": fx(mol.Hf[m]), "Eiso": fx(mol.Eiso[m]),
             "Z": Z, "gap": gap, "homo": homo, "lumo": lumo, "emo": emo, "q": [fx(x) for x in mol.q[m, :n]], "core": [int(tore[z]) for z in Z], "dp": dp,
             "dshift": [fx(x) for x in dshift[m]] if dshift is not None else [int(mol.tot_charge[m]) * k * 1889851 for k in (1, 2, -3)],
-            "dq": dqs if dqs[0] else [[0], [0], [0]], "dh": [fx(x) for x in dh], "dipf": bool(dqs[0]),
+            "allf": allf, "dq": dqs if dqs[0] else [[0], [0], [0]], "dh": [fx(x) for x in dh], "dipf": bool(dqs[0]),
             "emo0": emo0, "nocc": nocc if uhf else [nocc], "tracked": not uhf, "eigres": eigres,
             "rot": job.get("second") == "rotate" and dip_first is not None,
             "dip": [fx(x) for x in mol.dipole[m]] if mol.dipole is not None else [0, 0, 0],
